@@ -28,13 +28,13 @@ struct CallSpec {
     var_width: bool,
 }
 
-type Out = (Option<bool>, Vec<u32>, Vec<[u32; 2]>, Vec<GCall>);
+type Out = (Option<bool>, Vec<u32>, Vec<[u32; 2]>, Vec<GCall>, Vec<Vec<u64>>);
 
 fn run_call(c: &CallSpec, ft: &mut FillTessellator, stt: &mut StrokeTessellator) -> Out {
     let mut buffers: VertexBuffers<Point, u32> = VertexBuffers::new();
     buffers.vertices = vec![point(-7.0, -7.0); c.prefill];
     buffers.indices = (0..c.prefill as u32).collect();
-    let (ok, calls) = {
+    let (ok, calls, data) = {
         let mut rec = Recorder::new(&mut buffers, c.fail_at);
         let ok = catch(AssertUnwindSafe(|| {
             if c.fill {
@@ -55,7 +55,7 @@ fn run_call(c: &CallSpec, ft: &mut FillTessellator, stt: &mut StrokeTessellator)
             }
         }))
         .map(|r| r.is_ok());
-        (ok, rec.calls.clone())
+        (ok, rec.calls.clone(), rec.data.clone())
     };
     // indices relative to the first new vertex; vertex positions as bits
     let idx: Vec<u32> = buffers.indices[c.prefill.min(buffers.indices.len())..].iter().map(|i| i.wrapping_sub(c.prefill as u32)).collect();
@@ -69,7 +69,7 @@ fn run_call(c: &CallSpec, ft: &mut FillTessellator, stt: &mut StrokeTessellator)
             other => other.clone(),
         })
         .collect();
-    (ok, idx, pos, rel)
+    (ok, idx, pos, rel, data)
 }
 
 fn random_call(r: &mut Rng) -> CallSpec {
